@@ -17,7 +17,8 @@ Clause(o) ==
     ELSE LET ref == o.case.ref
              staged == [p \in 1..Len(o.raw.out) |->
                           Staged([j \in 1..Len(ref.post) |-> PostText(ref.post[j])],
-                                 [j \in 1..Len(ref.fin) |-> FinText(ref.fin[j])], o.raw.out[p])]
+                                 \* (convert_rule() yields the queries of one rule: output finalizers do not run)
+                                 IF o.case.op = "backend_switch" THEN <<>> ELSE [j \in 1..Len(ref.fin) |-> FinText(ref.fin[j])], o.raw.out[p])]
          IN
          IF \E p \in 1..Len(o.ref.out) : o.ref.out[p] # staged[p].qs THEN "StageOrder"
          ELSE IF o.got.out # o.ref.out THEN
